@@ -1423,3 +1423,56 @@ Proof.
   apply (tree_nodes_from_records _ _ _ _ H) in Hn. apply filter_In in Hn as [_ Hn].
   unfold of_trace in Hn. apply str_eqb_eq in Hn. exact Hn.
 Qed.
+
+(* ------------------------------------------------------------------ *)
+(* Part 5: OTLP request -> stored events                               *)
+(* ------------------------------------------------------------------ *)
+(* the events of a resource depend on that resource only, whatever precedes or follows it in the request *)
+Theorem request_events_resource_local : forall pre r post,
+  request_events (pre ++ r :: post) = request_events pre ++ resource_events r ++ request_events post.
+Proof. intros. unfold request_events. rewrite flat_map_app. reflexivity. Qed.
+
+Theorem request_events_perm : forall req req',
+  Permutation req req' -> Permutation (request_events req) (request_events req').
+Proof. intros req req' H. unfold request_events. apply Permutation_flat_map, H. Qed.
+
+Theorem event_service_own_resource : forall req e,
+  In e (request_events req) ->
+  exists r o, In r req /\ In o (concat (or_scopes r)) /\ e = span_to_event (resource_service r) o /\
+              sp_service e = resource_service r.
+Proof.
+  intros req e H. unfold request_events in H. apply in_flat_map in H as [r [Hr He]].
+  unfold resource_events in He. apply in_map_iff in He as [o [Ho Hin]].
+  exists r, o. subst e. repeat split; assumption.
+Qed.
+
+Definition svc_step (service : str) (kv : str * option str) : str :=
+  if str_eqb (fst kv) service_name_key then (match snd kv with Some v => v | None => [] end) else service.
+Lemma svc_fold_keep attrs : forall acc,
+  forallb (fun kv => negb (str_eqb (fst kv) service_name_key)) attrs = true -> fold_left svc_step attrs acc = acc.
+Proof.
+  induction attrs as [|kv l IH]; intros acc H; cbn [fold_left forallb] in *; [reflexivity|].
+  apply andb_true_iff in H as [H1 H2]. apply negb_true_iff in H1. unfold svc_step at 2. rewrite H1. apply IH, H2.
+Qed.
+
+(* a resource without Resource message, or without a service.name attribute, stores service "" *)
+Theorem unnamed_resource_service : forall r,
+  match or_attrs r with
+  | None => True
+  | Some attrs => forallb (fun kv => negb (str_eqb (fst kv) service_name_key)) attrs = true
+  end -> resource_service r = [].
+Proof.
+  intros r H. unfold resource_service. destruct (or_attrs r) as [attrs|]; [|reflexivity].
+  exact (svc_fold_keep attrs [] H).
+Qed.
+
+(* the last service.name attribute wins *)
+Theorem named_resource_service : forall pre v post scopes,
+  forallb (fun kv => negb (str_eqb (fst kv) service_name_key)) post = true ->
+  resource_service (mkRes (Some (pre ++ (service_name_key, Some v) :: post)) scopes) = v.
+Proof.
+  intros pre v post scopes H. unfold resource_service. cbn [or_attrs].
+  change (fold_left svc_step (pre ++ (service_name_key, Some v) :: post) [] = v).
+  rewrite fold_left_app. cbn [fold_left]. unfold svc_step at 2. cbn [fst snd]. rewrite str_eqb_refl.
+  apply svc_fold_keep, H.
+Qed.
